@@ -10,7 +10,7 @@ from .storebase import StoreProfile
 class PathsProfile(StoreProfile):
     name = "paths"
     prop = "C05"
-    names = NAME_POOL + ["x_y_z", "_", "a_b"]
+    names = NAME_POOL + ["x_y_z", "_", "a_b", "n" * 80, "long_" + "ab" * 60]     # and very long (legal) names
     rule = ("one case = one sid.path(c) or Sid(path=p, config=c) call at some position of a seeded history (random order, random "
             "first-touched configuration, cache capacity knob, restarts), checked for round trip, purity (same value at every "
             "position of the run and in a fresh twin process), injectivity over the run, root-relative equality between "
